@@ -82,8 +82,9 @@ NEEDS = {
                  "reward of the first covered agent; only the second call is compared with the model"),
     "C14-r6m2": ("a cache of done super agents that the super_agent_mapping setter does not clear: all covered agents done, "
                  "get_done(S), the mapping re-assigned in MID-episode so that S also covers a live agent, get_done(S)",
-                 "NOT CAUGHT, and outside the call alphabet of the model: the mapping is re-assigned before the first reset "
-                 "only (what the hand-over flags mean after a re-assignment in mid-episode is not defined by the wrapper)"),
+                 "MISSED at first (the mapping is re-assigned before the first reset only in the modelled call alphabet); caught "
+                 "since every second call history ends model-free: a super agent whose covered agents are all done is asked "
+                 "get_done, its mapping is re-assigned to cover a live agent as well, and get_done must answer False at once"),
     "C15-r6m1": ("OpenSpielWrapper.step decides LAST / _should_reset after the calls that can fail: on exactly the terminal "
                  "step the observation of an agent that finished earlier raises once, the caller steps again",
                  "MISSED at first (the adapter sessions had no fault injection); the OpenSpiel play-throughs now use a "
